@@ -45,23 +45,22 @@ func MapLoops(fn *ssa.Function) []*MapLoop {
 				continue
 			}
 			ml := &MapLoop{Fn: fn, Range: r, Header: h, Exit: h.Succs[1], Body: map[*ssa.BasicBlock]bool{}}
-			// blocks reachable from the body entry without passing the header
-			reach := map[*ssa.BasicBlock]bool{}
-			var walk func(b *ssa.BasicBlock)
-			walk = func(b *ssa.BasicBlock) {
-				if b == h || reach[b] {
+			// the natural loop of the header: for every back edge t → h (h dominates t), the blocks that reach t without
+			// passing h. (Reachability alone is not enough: a body that leaves the loop by a jump — a labeled break — reaches
+			// the blocks of an ENCLOSING loop, and those reach the header again through the enclosing loop's back edge.)
+			var back func(b *ssa.BasicBlock)
+			back = func(b *ssa.BasicBlock) {
+				if b == h || ml.Body[b] {
 					return
 				}
-				reach[b] = true
-				for _, s := range b.Succs {
-					walk(s)
+				ml.Body[b] = true
+				for _, pr := range b.Preds {
+					back(pr)
 				}
 			}
-			walk(h.Succs[0])
-			// natural loop: those from which the header is reachable
-			for b := range reach {
-				if reaches(b, h, map[*ssa.BasicBlock]bool{}) {
-					ml.Body[b] = true
+			for _, t := range h.Preds {
+				if h.Dominates(t) && t != h {
+					back(t)
 				}
 			}
 			out = append(out, ml)
@@ -143,7 +142,7 @@ func (ml *MapLoop) Classify(p *ir.Program, cfg OrderConfig) []OrderFinding {
 				continue
 			}
 			e := Edge{b, si}
-			if isErrorEdge(e) {
+			if isErrorEdge(e) || entersOverErrorEdge(b) {
 				continue
 			}
 			out = append(out, OrderFinding{"early-exit", b.Instrs[len(b.Instrs)-1], fmt.Sprintf("the loop is left early over edge %s on a non-error condition: the first matching element in map order wins", e), nil})
@@ -470,6 +469,21 @@ func usedAfter(ph *ssa.Phi, ml *MapLoop) bool {
 				return true
 			}
 		}
+	}
+	return false
+}
+
+// entersOverErrorEdge: the block is reached only over an err != nil edge (following its single-predecessor chain): leaving
+// the loop from it is leaving on an error — `if err != nil { cleanup; break }`, or the inlined form of `return …, err`.
+func entersOverErrorEdge(b *ssa.BasicBlock) bool {
+	for i := 0; i < 4 && b != nil && len(b.Preds) == 1; i++ {
+		p := b.Preds[0]
+		for si, s := range p.Succs {
+			if s == b && isErrorEdge(Edge{p, si}) {
+				return true
+			}
+		}
+		b = p
 	}
 	return false
 }
